@@ -257,7 +257,7 @@ static int minimise(Harness& h, Plan p, const std::string& out, const std::strin
 
 static int main2(int argc, char **argv, Harness& h);
 // never run static destructors: fix8's global logger singleton would join a thread id that has long been reused
-int main_(int argc, char **argv, Harness& h) { int rc = main2(argc, argv, h); fflush(stdout); fflush(stderr); _exit(rc); }
+int main_(int argc, char **argv, Harness& h) { int rc = main2(argc, argv, h); h.finish(); fflush(stdout); fflush(stderr); _exit(rc); }
 static int main2(int argc, char **argv, Harness& h)
 {
 	uint64_t seed = 1; long start = 0, stride = 1, count = 1, idx = -1, detcheck = 64; double secs = 0; bool thorough = false, verbose = false;
